@@ -38,6 +38,10 @@ CHECKS = {
          "Dat.tla states, for every option-line configuration, the header and which slot of the library's reply belongs under each column name (Prop) next to the printer's transcribed index arithmetic (Mech); TLC checks Mech = Prop (the code's deviations are explicit switches). The real gwb-dat is run on every configuration, its stdout is validated by TLC as a trace against Dat.tla (DatTrace.tla) and every cell is compared with the library's in-process reply.",
          "216 configurations, 7 rows each, one kitchen-sink world per coordinate mode; " + NOTE,
          "TLA+/TLC (Dat.tla Mech=Prop) + trace validation of the real tool's output (DatTrace.tla) + cell comparison"),
+ "C18": ("model_checking",
+         "Grid.tla states what a well-formed mesh of each structured grid type is (nodes = the full lattice index box, cells = exactly its unit cells in VTK order with the right types and offsets, Depth index, the filter rule) independently of any node numbering; the real gwb-grid is run on every configuration TLC enumerates, each mesh it writes (main, filtered, per tag) is replayed to TLC as a trace and judged by those predicates, and every stored node value is compared bitwise with the library's in-process reply at the stored position and depth.",
+         "cell counts 1..2 (quick) / 1..3 (thorough) per direction, one kitchen-sink world per coordinate mode, sphere grids by invariants only; " + NOTE,
+         "TLA+/TLC (Grid.tla) + trace validation of the real tool's VTU output (GridTrace.tla) + bitwise node-value comparison"),
  "C19": ("model_checking",
          "TLC checks the transcribed kd-tree search against the minimum-distance definition for every point set, every arrangement the median split may leave and every query; the transcribed polygon code against the closed-polygon definition for every simple polygon; the great-circle mechanism (clamp included) against R*acos on the 26-direction configuration where dot products are integers. Every enumerated input is then passed to the real kernels. Bezier closest points and the coordinate round trip are compared numerically with brute force (exploration-strength for those two).",
          "4x4 lattices, <= 4/5 points, polygons <= 4/5 vertices, polylines <= 3/4 points with bends <= 60 degrees; " + NOTE,
